@@ -23,7 +23,7 @@ MANIFEST = dict(
 def check(ctx):
     o = C03_ops.parts(ctx)
     rows = R.run_kind(ctx, 'leak', shards=4)
-    R.compare(ctx, rows, lambda d: (flag(d), d.get('leaked'), d.get('released')), 'C03 no goroutine of the library survives the subscription', nontrivial=lambda c, gd: True)
+    R.compare(ctx, rows, lambda d: (flag(d), d.get('leaked'), d.get('released')), 'C03 no goroutine of the library survives the subscription', nontrivial=lambda c, gd: True, recheck=2)
     rules, assumptions, searches, extra = [o['rule_part']], [], [table_search('C14'), o.get('search')], {}
     if C03_kernel:
         k = C03_kernel.parts(ctx)
